@@ -45,7 +45,7 @@ use std::time::Duration;
 
 pub const META: Meta = Meta {
     level: "model_checking",
-    rule: "BFS over all histories of {register(peer in 2, namespace in 3, ttl in {1,2,10,11} for namespace 0 and {2,10} otherwise), unregister(peer, namespace), discover(all | ns0 | ns1 (ns1 in the thorough tier only); cookie none | last | older | foreign-namespace; limit none | 1), advance virtual time by 1 s or 8 s followed by polling the expiry stream} on the real Registrations store with limits min_ttl 2, max_ttl 10, 2 per peer, 3 in total; states deduplicated on (reference model with relative deadlines, last two cookies, pending timers of dead registrations, discover-all projection and table sizes of the store). Non-trivial = states with at least one live registration.",
+    rule: "BFS over all histories of {register(peer in 2, namespace in 3, ttl in {1,2,10,11,none = protocol default 7200} for namespace 0 and {2,10} otherwise), unregister(peer, namespace), discover(all | ns0 | ns1 (ns1 in the thorough tier only); cookie none | last | older | foreign-namespace; limit none | 1), advance virtual time by 1 s or 8 s followed by polling the expiry stream} on the real Registrations store with limits min_ttl 2, max_ttl 10, 2 per peer, 3 in total; states deduplicated on (reference model with relative deadlines, last two cookies, pending timers of dead registrations, discover-all projection and table sizes of the store). Non-trivial = states with at least one live registration.",
     explanation: "Every register answer and every discovery result is checked against the reference model of live registrations with deadlines and per-cookie already-returned sets; limits are checked on the store's own discover-all answer after every step; un-deduplicated DFS companion to a smaller depth.",
     assumptions: &["2 peers / 3 namespaces / tiny limits (small-scope hypothesis)", "cookie cache never overflows (default max_cookies 10000)", "expiry timers fire as soon as their deadline is reached and are polled before the next request (the order Behaviour::poll uses)", "signed peer records are trusted as built (record validation is not part of Registrations)"],
 };
@@ -59,6 +59,8 @@ const TOTAL: usize = 3;
 pub enum Act {
     /// peer, namespace, ttl
     Reg(u8, u8, u64),
+    /// peer, namespace; the request carries no ttl (the server's default ttl applies)
+    RegNoTtl(u8, u8),
     Unreg(u8, u8),
     /// namespace (3 = all), cookie (0 none, 1 last, 2 older, 3 foreign namespace), limit 1?
     Disc(u8, u8, bool),
@@ -68,7 +70,7 @@ pub enum Act {
 // ---------------------------------------------------------------- real store + helpers
 
 enum Cmd {
-    Add(u8, u8, u64, u32),
+    Add(u8, u8, Option<u64>, u32),
     Remove(u8, u8),
     Get(Option<u8>, Option<Vec<u8>>, Option<u64>),
     Advance(u64),
@@ -185,7 +187,7 @@ impl Sys {
         let r = mc::catch(|| {
             let regs = &mut self.regs;
             let reply = match c {
-                Cmd::Add(p, n, ttl, ident) => Reply::Add(regs.add(ns(n), record(p, ident), Some(ttl)).map(|r| ident_of(&r)).map_err(|e| format!("{e:?}"))),
+                Cmd::Add(p, n, ttl, ident) => Reply::Add(regs.add(ns(n), record(p, ident), ttl).map(|r| ident_of(&r)).map_err(|e| format!("{e:?}"))),
                 Cmd::Remove(p, n) => {
                     regs.remove(ns(n), peer(p + 1));
                     Reply::Unit
@@ -267,10 +269,17 @@ impl Sys {
 impl Sys {
     fn step_inner(&mut self, a: &Act) -> Result<(), String> {
         match a {
-            Act::Reg(p, n, ttl) => {
+            Act::Reg(..) | Act::RegNoTtl(..) => {
+                // a request without ttl is judged by its effective ttl (the protocol default)
+                let (p, n, sent) = match a {
+                    Act::Reg(p, n, t) => (p, n, Some(*t)),
+                    Act::RegNoTtl(p, n) => (p, n, None),
+                    _ => unreachable!(),
+                };
+                let ttl = &sent.unwrap_or(libp2p_rendezvous::DEFAULT_TTL);
                 let ident = self.next_ident;
                 self.next_ident += 1;
-                let r = self.call(Cmd::Add(*p, *n, *ttl, ident))?;
+                let r = self.call(Cmd::Add(*p, *n, sent, ident))?;
                 let Reply::Add(ans) = r.reply else { return Err("HARNESS bad reply".into()) };
                 let valid = (MIN_TTL..=MAX_TTL).contains(ttl);
                 let is_refresh = self.live.contains_key(&(*p, *n));
@@ -384,6 +393,9 @@ impl System for Sys {
                 let ttls: &[u64] = if n == 0 { &[1, 2, 10, 11] } else { &[2, 10] };
                 for t in ttls {
                     v.push(Act::Reg(p, n, *t));
+                }
+                if n == 0 {
+                    v.push(Act::RegNoTtl(p, n));
                 }
             }
         }
